@@ -30,6 +30,7 @@ MANIFEST = {
 }
 
 SHAPES = ["var", "eff", "stmt", "nest", "nstmt"]
+SHAPES_RAND = SHAPES + ["dnest"]      # sampled part only (the exhaustive part keeps its five shapes)
 CONTEXTS = ["used", "discarded", "iftest", "callarg", "infn", "alias"]
 FALSY = ["[]", "0", '""', "None", "False"]
 
@@ -44,6 +45,15 @@ def build(op, specs, counter, rng=None, depth=0):
     for shape, truthy in specs:
         i = next(counter)
         fv = rng.randrange(len(FALSY)) if rng else 0
+        if shape == "dnest":
+            # a statement-producing operand whose *value* is a nested and/or of plain operands
+            # (so the value expression is itself an ast.BoolOp): (do (setv sI 1) (or a b))
+            inner_op = rng.choice(["and", "or"]) if rng else ("or" if op == "and" else "and")
+            first = (rng.random() < 0.5) if rng else (inner_op == "and")
+            inner = build(inner_op, [(rng.choice(["var", "eff"]) if rng else "eff", first), ("var", truthy)],
+                          counter, rng, depth + 1)
+            ops.append({"k": "dnest", "i": i, "inner": inner})
+            continue
         if shape == "nest":
             # an inner form of the opposite operator whose overall truth is `truthy`
             inner_op = "or" if op == "and" else "and"
@@ -78,11 +88,15 @@ def render(node):
         return f"(do (setv t{node['i']} v{node['i']}) (L {node['i']} t{node['i']}))"
     if k == "nstmt":          # a pure statement: effects but no value (evaluates to None)
         return f"(do (L {node['i']} v{node['i']}) (setv s{node['i']} 1))"
+    if k == "dnest":
+        return f"(do (setv s{node['i']} 1) {render(node['inner'])})"
     return "(" + " ".join([node["op"]] + [render(c) for c in node["ops"]]) + ")"
 
 
 def leaves(node):
-    if node["k"] == "bool":
+    if node["k"] == "dnest":
+        yield from leaves(node["inner"])
+    elif node["k"] == "bool":
         for c in node["ops"]:
             yield from leaves(c)
     else:
@@ -113,6 +127,19 @@ def wrap(form, ctx, node=None):
 
 def cases(seed, tier, shard, nshards):
     idx = 0
+    # deterministic family: first operand, statement operand, plain, statement operand whose value
+    # is itself an and/or (dnest), plain - under every truthiness assignment
+    for op in ("and", "or"):
+        for lead, s1, p1, p2 in itertools.product(("var", "eff"), ("stmt", "nstmt", "dnest"), ("var", "eff"),
+                                                  ("var", "eff")):
+            for truth in itertools.product((True, False), repeat=5):
+                idx += 1
+                if idx % nshards != shard:
+                    continue
+                specs = list(zip([lead, s1, p1, "dnest", p2], truth))
+                node = build(op, specs, itertools.count())
+                ctx = CONTEXTS[idx % len(CONTEXTS)]
+                yield {"node": node, "ctx": ctx, "text": wrap(render(node), ctx, node), "cls": "dnest5"}
     # exhaustive part
     for op in ("and", "or"):
         for n in range(0, 5):
@@ -135,13 +162,20 @@ def cases(seed, tier, shard, nshards):
         decider = rng.randrange(n + 1)   # n = nobody decides early
         specs = []
         for p in range(n):
-            shape = rng.choice(SHAPES)
+            shape = rng.choice(SHAPES_RAND)
             truthy = (op == "and") if p != decider else (op != "and")
             if p > decider and rng.random() < 0.7:
                 truthy = rng.random() < 0.5
             specs.append((shape, truthy))
         sp = rng.randrange(n)
         specs[sp] = ("stmt", specs[sp][1])
+        if n >= 5 and rng.random() < 0.3:
+            # statement, plain, statement-valued-as-BoolOp, plain: the plain operand after a
+            # statement operand whose value is an and/or must not be folded into that and/or
+            o = rng.randrange(1, n - 3)     # after the first operand: the temporary exists already
+            for q, sh in enumerate([rng.choice(["stmt", "nstmt", "dnest"]), rng.choice(["var", "eff"]),
+                                    "dnest", rng.choice(["var", "eff"])]):
+                specs[o + q] = (sh, (op == "and") if rng.random() < 0.8 else (op != "and"))
         node = build(op, specs, itertools.count(), rng)
         ctx = rng.choice(CONTEXTS)
         yield {"node": node, "ctx": ctx, "text": wrap(render(node), ctx, node), "cls": f"rand{n}"}
@@ -164,6 +198,8 @@ def ref(node, values, trace):
     if k == "nstmt":
         trace.append(node["i"])
         return None
+    if k == "dnest":
+        return ref(node["inner"], values, trace)
     res = True if node["op"] == "and" else None
     for c in node["ops"]:
         res = ref(c, values, trace)
@@ -186,7 +222,8 @@ def run_case(case):
     classes = [case["cls"], "ctx:" + ctx, "op:" + node["op"]]
     lv = list(leaves(node))
     nontrivial = (len(node["ops"]) >= 2 and
-                  any(l["k"] in ("stmt", "nstmt") for c in node["ops"][1:] for l in leaves(c)))
+                  (any(l["k"] in ("stmt", "nstmt") for c in node["ops"][1:] for l in leaves(c))
+                   or any(c["k"] == "dnest" for c in node["ops"][1:])))
     res = {"ok": True, "nontrivial": nontrivial, "classes": classes, "events": len(tr.events)}
     if exc is not None:
         res.update(ok=False, why=f"{phase} raised {type(exc).__name__}: {exc}")
